@@ -44,6 +44,7 @@ COMPILER_REPLAYS = {
     "u_dceblk": ["replay/c02/bare_builtin_stmt.sh"],
     "u_arrset": ["replay/c02/array_set_let.sh"],
     "u_constrname": ["replay/c04/tparam_app.sh"],
+    "u_placeholder": ["replay/c04/placeholder_field.sh"],
     "u_derive": ["replay/c18/prim_fields.sh"],
     "u_patlit": ["replay/c03/run.sh"],
     "u_annot": ["replay/c03/annotations.sh"],
